@@ -151,6 +151,14 @@ def run(ctx):
                     o |= dep.origins(eb, op, at=K.at_stmt(eb, bb, st))
                 if any(a[0] == "call" and a[2] == asu[0][0] for a in o):
                     used = True
+            # ... or is the `checksum` field of a struct literal
+            for bb, st in K.aggregates(eb, "TcpHeader"):
+                try:
+                    op = K.agg_field_operand(st, "checksum")
+                except Exception:
+                    op = None
+                if op is not None and any(a[0] == "call" and a[2] == asu[0][0] for a in dep.origins(eb, op, at=K.at_stmt(eb, bb, st))):
+                    used = True
             if not used:
                 probs.append("the value of as_u16 does not flow into the emitted header")
         # decoder: Ok only where received == computed
